@@ -17,6 +17,7 @@ Record xfer_facts := {
   xf_retr_open : string;
   xf_rest_body : list string;             (* rest() *)
   xf_reset_stmt : list string;            (* the dispatcher statement that clears the offset, and what precedes it in its block *)
+  xf_backend_wiring : list string;        (* the assignments of self.path_io_factory (Server.__init__) and connection.path_io (dispatcher): callee and positional arguments *)
   (* common.py *)
   xf_iter_anext : list string;            (* AsyncStreamIterator.__anext__ *)
   xf_iter_by_block_stream : list string;  (* ThrottleStreamIO.iter_by_block *)
@@ -26,6 +27,7 @@ Record xfer_facts := {
   xf_stream_write : list string;
   xf_default_block_size : Z;
   (* pathio.py *)
+  xf_nursery_call : list string;          (* PathIONursery.__call__: every instance shares one state *)
   xf_iter_by_block_file : list string;    (* AsyncPathIOContext.iter_by_block *)
   (* client.py *)
   xf_get_stream : list string;
